@@ -259,6 +259,8 @@ def hyp_survey(mod, coll, mode, knob, n, seed_value):
 
 def run_standard_phases(mod, coll, tier, seed_value, shard=0, nshards=1):
     b = mod.budgets(tier)
+    if hasattr(mod, "configure"):
+        mod.configure(tier, b)
     s = (seed_value * 1000003 + shard) % (2 ** 32)
     n_core = max(1, b["core"] // nshards)
     hyp_survey(mod, coll, "core", None, n_core, s)
